@@ -413,6 +413,14 @@ def rule_cap(ctx, which, units=None, fnames=('search',)):
                 continue
             for (i, t) in sites:
                 ok, desc, kt = cap_check(t)
+                # the cap is evaluated in a type as wide as the estimate: std::min<uint32_t> would truncate a size_t estimate
+                # (a far query wraps to a small position) before comparing it with the next intercept
+                cty = f.unit.type(f.n(i).get('t', 0)) or {}
+                m_node = f.n(i).get('args', [None])[0]
+                mty = (f.unit.type(f.n(f.strip(m_node, casts=True)).get('t', 0)) or {}) if m_node else {}
+                if ok and cty.get('k') == 'int' and mty.get('k') == 'int' and cty.get('bits', 64) < mty.get('bits', 0):
+                    ok = False
+                    desc += f"; but the minimum is taken in `{cty.get('s')}`, narrower than the estimate (`{mty.get('s')}`): an estimate of 2^{cty.get('bits')} or more wraps before it is capped"
                 if ok and kt is not None:
                     # the key handed to the model
                     if name == 'search':
@@ -910,6 +918,54 @@ def rule_keydiff_type(ctx, units=None):
                     ok = True
             obs.append(Ob('TYPE', f, i, 'k - key evaluated in an unsigned, floating or wider-than-K type (no signed overflow)',
                           f"K = {kt['s'] if kt else '?'}, difference has type {why}", OK if ok else VIOLATED, arm='keydiff'))
+    return obs
+
+
+def rule_keydiff_sign(ctx, which, units=None):
+    """Variants over unsigned keys (Elias-Fano, compressed): the difference between the query and a segment key is an unsigned
+    value of up to the key width; it must reach the floating multiplication unsigned.  Converted to a signed integer type of
+    the same or a smaller width (e.g. held in an int64_t temporary) a difference of 2^63 or more becomes negative and the
+    estimate collapses to the start of the segment."""
+    obs = []
+    tns = {'eliasfano': ['pgm::EliasFanoPGMIndex::SegmentData::operator()'],
+           'compressed': ['pgm::CompressedPGMIndex::CompressedLevel::operator()', 'pgm::CompressedPGMIndex::search']}[which]
+    for tn in tns:
+        for f in ctx.need(tn, units):
+            u = f.unit
+            n = 0
+            bad = None
+            for i in f.all_ids():
+                nd = f.n(i)
+                if nd['c'] != 'BinaryOperator' or nd['op'] != '-' or not reachable(f, i):
+                    continue
+                dt = u.type(nd.get('t', 0)) or {}
+                if dt.get('k') != 'int':
+                    continue
+                ops = [_strip_cast(f.term(c_, inline=False)) for c_ in nd['ch']]
+                if not (ops[0][0] in ('param', 'local') and (ops[1][0] in ('param', 'field', 'index') or ops[1][0] == 'local')):
+                    continue
+                # a difference of two key-typed values (same type as the key parameter)
+                kts = [u.type(p_['t']) for p_ in f.params if p_['name'] in ('k', 'key')]
+                if not kts or (u.type(f.n(f.strip(nd['ch'][0], casts=True)).get('t', 0)) or {}).get('bits') != (u.base_type(kts[0]['id']) if False else kts[0]).get('bits'):
+                    pass
+                n += 1
+                if dt.get('signed'):
+                    bad = bad or (i, f"the difference itself has the signed type `{dt.get('s')}`")
+                    continue
+                # follow the value upwards through implicit/explicit integral casts and an initialised local
+                p_ = f.sparent(i)
+                while p_ and f.n(p_)['c'] in ('ParenExpr', 'ImplicitCastExpr', 'CStyleCastExpr', 'CXXStaticCastExpr', 'CXXFunctionalCastExpr'):
+                    ct = u.type(f.n(p_).get('t', 0)) or {}
+                    if ct.get('k') == 'int' and ct.get('signed') and ct.get('bits', 0) <= dt.get('bits', 0):
+                        bad = bad or (p_, f"`{fmt_term(f.term(i, inline=False))[:40]}` ({dt.get('s')}) is converted to `{ct.get('s')}`: a difference of 2^{ct.get('bits', 64) - 1} or more becomes negative")
+                    p_ = f.sparent(p_)
+            if n == 0 and tn.endswith('::search'):
+                continue        # EpsilonRecursive == 0: no root estimate in this instantiation
+            if n == 0:
+                obs.append(Ob('TYPE', f, 0, 'a key difference in the model evaluation', 'none found', UNDECIDED, arm='keydiff-sign:' + f.name))
+            else:
+                obs.append(Ob('TYPE', f, bad[0] if bad else 0, 'the key difference reaches the floating multiplication as an unsigned value (never converted to a signed integer of the same width)',
+                              bad[1] if bad else f"{n} key difference(s), unsigned up to the multiplication", VIOLATED if bad else OK, arm='keydiff-sign:' + f.name))
     return obs
 
 
